@@ -5,8 +5,8 @@
     replaced by [f] (kinds, role, stoich untouched); [geq] = same graph up to the insertion order of nodes / arcs;
     [iso g h] = some map injective on the nodes of g relabels g into h up to [geq]. *)
 From Coq Require Import List NArith ZArith Bool Arith Permutation.
-From SK Require Import lib.IRSortKeys lib.IRCore lib.IRSearch model.C18_Model model.C18_AttrModel model.C18_WLModel model.C18_BackendModel model.C18_DepthModel model.C18_IntIdsModel model.C18_UFModel model.C18_AutAttrModel model.C18_SpAttrModel model.C18_RunModel proof.C18_Attr proof.C18_Order proof.C18_Spec
-  proof.C18_Graph proof.C18_Canon proof.C18_Equiv proof.C18_Label proof.C18_Aut proof.C18_Invariant proof.C18_Wf proof.C18_Count proof.C18_View proof.C18_Vf2 proof.C18_Vf2Count proof.C18_Refine proof.C18_NetBip proof.C18_Net proof.C18_NetSp proof.C18_Orbits proof.C18_OrbSound proof.C18_OrbComplete proof.C18_OrbCanon proof.C18_Maps proof.C18_WL proof.C18_Backend proof.C18_Depth proof.C18_IntIds proof.C18_UF proof.C18_AutAttr proof.C18_SpAttr proof.C18_AttrEquiv proof.C18_BackendFlags proof.C18_IntIdsRen proof.C18_WLBound proof.C18_Examples.
+From SK Require Import lib.IRSortKeys lib.IRCore lib.IRSearch model.C18_Model model.C18_AttrModel model.C18_WLModel model.C18_BackendModel model.C18_DepthModel model.C18_IntIdsModel model.C18_UFModel model.C18_AutAttrModel model.C18_SpAttrModel model.C18_RunModel model.C18_SigLogModel proof.C18_Attr proof.C18_Order proof.C18_Spec
+  proof.C18_Graph proof.C18_Canon proof.C18_Equiv proof.C18_Label proof.C18_Aut proof.C18_Invariant proof.C18_Wf proof.C18_Count proof.C18_View proof.C18_Vf2 proof.C18_Vf2Count proof.C18_Refine proof.C18_NetBip proof.C18_Net proof.C18_NetSp proof.C18_Orbits proof.C18_OrbSound proof.C18_OrbComplete proof.C18_OrbCanon proof.C18_Maps proof.C18_WL proof.C18_Backend proof.C18_Depth proof.C18_IntIds proof.C18_UF proof.C18_AutAttr proof.C18_SpAttr proof.C18_AttrEquiv proof.C18_BackendFlags proof.C18_IntIdsRen proof.C18_WLBound proof.C18_Cross proof.C18_Examples.
 From SK Require Import lib.C18_IRValid.
 From SK Require lib.IRInst.
 Import ListNotations.
@@ -374,6 +374,8 @@ Print Assumptions C18_intids_canon.
 (** Clause 4, orbits, for CRNAutomorphism with the union-find of the code itself (model/C18_UFModel.v: parent dict, find with path
     halving, union without ranks, buckets by root in node order; evaluated on every case).  Fuel sufficiency of [find] is part of the
     proof (a parent path inside the nodes is shorter than the node list).  VF2 stays the explicit premise of C18_vf2_count. *)
+(** (What this needs from VF2 is that it yields the same SET of (node, image) pairs as [auts g]; the orbits reported by the code are
+    compared with [orbits_from_mappings (node_ids g) (auts g)] on every case, the count premise of C18_vf2_count alone would not do.) *)
 Theorem C18_vf2_orbits_uf : forall g : vgraph, wf g ->
   part (node_ids g) (orbits_from_mappings (node_ids g) (auts g)) /\
   (forall u v, In u (node_ids g) ->
@@ -540,3 +542,29 @@ Theorem C18_wl_estimate_upper : forall (g : vgraph) (inb outb : bool) (n_iter : 
    <= estimate (map (@length N) (wl_cells g (wl_colors g [] [NKind] [ERole; EStoich] inb outb n_iter))) 1%N cap)%N.
 Proof. exact (fun g inb outb n cap Hw => wl_estimate_upper g inb outb n Hw cap). Qed.
 Print Assumptions C18_wl_estimate_upper.
+
+(** The two exact tools under one node selection without 'label' (default edge keys): the canonicaliser never reports fewer
+    automorphisms than the enumerator of the VF2 tool lists under the same selection (each listed self-map yields its own minimal
+    leaf: C18_vf2_attr_count + C18_attr_count_lower_partial).  The converse inequality is the missing half of clause 4 for selections. *)
+Theorem C18_attr_count_ge_vf2 : forall (g : vgraph) (t : ltab) (nk : list nsel),
+  wf g -> Forall (fun x => x <> NLabel) nk ->
+  length (autsA g t nk) <= length (snd (canon_searchA g t nk [ERole; EStoich])).
+Proof. exact canon_count_ge_vf2. Qed.
+Print Assumptions C18_attr_count_ge_vf2.
+
+(** Reading of "the species view" (audit A4): hypergraph_to_species_graph is called without include_stoich, and the DEFAULT
+    edge_attr_keys ("role", "stoich") do not exist on its arcs, so in the species view the default canonical form, automorphism count and
+    orbits see arcs and kinds only -- "stoichiometry on / off" is the same configuration there, and "structure-preserving" in clauses 2-4
+    means: arcs (direction, loops) and kinds.  The coefficients enter only through edge_attr_keys = ("stoich_r", "stoich_p")
+    (model/C18_SpAttrModel.v; C18_spattr_* theorems, second halves judged by the oracle). *)
+Theorem C18_species_view_ignores_stoich : forall (st st' : bool) (n : net), view false st n = view false st' n.
+Proof. reflexivity. Qed.
+Print Assumptions C18_species_view_ignores_stoich.
+
+(** Consequence (witness A >> B versus 2A >> B): two networks that differ in a coefficient have the SAME default species view -- hence
+    the same canonical graph on the keyed attributes, and A >> B, 2B >> A has 2 self-maps there -- while the species view with the
+    aggregates tells them apart. *)
+Theorem C18_species_view_coefficients_invisible : exists n n' : net,
+  view false true n = view false true n' /\ view_spS n <> view_spS n'.
+Proof. exact species_view_coefficients_invisible. Qed.
+Print Assumptions C18_species_view_coefficients_invisible.
